@@ -37,6 +37,7 @@ type Run struct {
 	InInit              int
 	FnCount             map[string]int
 	GoCount             int
+	MapOrderForks       int
 	Sch                 *Sched
 	SpawnOK             bool
 	Leaked              int
@@ -652,6 +653,7 @@ func (fr *Frame) step(instr ssa.Instruction) int {
 				it.keys = append(it.keys, x.Keys...)
 				it.vals = append(it.vals, x.Vals...)
 			}
+			r.mapOrder(fr, it)
 			fr.env[in] = it
 		case Str:
 			fr.env[in] = &StrIter{s: string(x)}
